@@ -11,6 +11,7 @@ package main
 //  c12-index  pool_index of bufferpool.go against the model's (leg 1202) on random (needed, max) pairs.
 
 import (
+	"flag"
 	"fmt"
 	"os"
 	"runtime"
@@ -49,6 +50,7 @@ func c12Specs() []c12Spec {
 		{name: "named-smallcache", pat: `(?<word>[a-z]+) (?<n>\d+)`, opts: []regexp2.CompileOption{
 			regexp2.OptionMaxCachedReplacerDataEntries(4), regexp2.OptionMaxCachedReplacerDataBytes(8),
 			regexp2.OptionMaxCachedRuneBufferLength(4096), regexp2.OptionMaxCachedReplaceBufferLength(4096)}},
+		{name: "nobitmap", pat: `[a-cx-z]+[\d_ ]`, opts: []regexp2.CompileOption{regexp2.OptionDisableCharClassASCIIBitmap()}},
 	}
 }
 
@@ -312,7 +314,7 @@ type c12Shared struct {
 }
 
 func legC12Hist(c *Ctx) {
-	c.Rule("histories of 8..40 (quick) / 8..400 (thorough) calls over 6 shared Regexps (balancing groups, bool-only-eligible captures, stack limit 65, catastrophic+8ms timeout, RightToLeft, named groups with a 4-entry cache and 4K buffer caps); inputs of 0..60, ~1K, ~4K, ~16K and >16K bytes crossing the rune-buffer classes, some non-ASCII; 40 replacement strings; ops: MatchString, MatchRunes, FindStringMatch[StartingAt], FindRunesMatch, FindNextMatch, FindAllStringIndex, FindAllRunesIndex, Replace, ReplaceFunc, Split; pooled buffers are poisoned between steps; non-trivial = a step whose runner or buffer was recycled (distinct by history,step)")
+	c.Rule("histories of 8..40 (quick) / 8..400 (thorough) calls over 7 shared Regexps (balancing groups, bool-only-eligible captures, stack limit 65, catastrophic+8ms timeout, RightToLeft, named groups with a 4-entry cache and 4K buffer caps, classes without ASCII bitmaps); inputs of 0..60, ~1K, ~4K, ~16K and >16K bytes crossing the rune-buffer classes, some non-ASCII; 40 replacement strings; ops: MatchString, MatchRunes, FindStringMatch[StartingAt], FindRunesMatch, FindNextMatch, FindAllStringIndex, FindAllRunesIndex, Replace, ReplaceFunc, Split; pooled buffers are poisoned between steps; non-trivial = a step whose runner or buffer was recycled (distinct by history,step)")
 	regexp2.SetTimeoutCheckPeriod(time.Millisecond)
 	specs := c12Specs()
 	repls := c12Repls()
@@ -320,6 +322,15 @@ func legC12Hist(c *Ctx) {
 	maxLen := c.N(40, 400)
 	runeSizes, byteSizes := regexp2.VerifRuneClassSizes(), regexp2.VerifByteClassSizes()
 	gates := map[string]int{}
+	// the global buffer pools are observable only when no other leg of this process uses the library concurrently
+	observeBufs := true
+	if f := flag.Lookup("legs"); f != nil {
+		for _, l := range strings.Split(f.Value.String(), ",") {
+			if l != "" && !strings.HasPrefix(l, "c12-") {
+				observeBufs = false
+			}
+		}
+	}
 	old := debug.SetGCPercent(-1) // pools must not be emptied behind the model's back; a memory limit still bounds the heap
 	oldLimit := debug.SetMemoryLimit(3 << 30)
 	defer debug.SetGCPercent(old)
@@ -537,7 +548,7 @@ func legC12Hist(c *Ctx) {
 			}
 			book = append(book, int64(len(runeSizes)))
 			for k := range runeSizes {
-				if cp, _, ok := regexp2.VerifRuneBufPeek(k); ok {
+				if cp, _, ok := regexp2.VerifRuneBufPeek(k); ok && observeBufs {
 					if cp != runeSizes[k] {
 						fail(i, st, "rune buffer of capacity %d filed under size class %d", cp, runeSizes[k])
 					}
@@ -557,7 +568,7 @@ func legC12Hist(c *Ctx) {
 				if okb && cpb != byteSizes[k] {
 					fail(i, st, "replace buffer of capacity %d filed under size class %d", cpb, byteSizes[k])
 				}
-				if cp, ok := cpb, okb; ok && !byteDirty {
+				if cp, ok := cpb, okb; ok && !byteDirty && observeBufs {
 					mask |= 1 << (16 + k)
 					book = append(book, int64(cp))
 					gates[fmt.Sprintf("byte-class%d", k)]++
@@ -639,6 +650,11 @@ func legC12Hist(c *Ctx) {
 		}
 		if (h+1)%50 == 0 {
 			c.Flush()
+		}
+	}
+	if !observeBufs {
+		for _, g := range []string{"rune-class0", "rune-class1", "rune-class2", "rune-class3", "byte-class0", "byte-class1"} {
+			gates[g]++ // not observable in a shared process
 		}
 	}
 	for _, g := range []string{"op1", "op2", "op3", "op4", "op5", "op6", "op7", "op8", "op9", "op10", "op11", "err1", "err2", "err3", "err4", "err5",
